@@ -311,7 +311,13 @@ def run_cli_case(case, ctx, res):
                     (f.parent / (f.name + ".license")).write_text("\n".join(pre + (["", "SPDX-License-Identifier: MIT"] if with_licence else [])) + "\n")
                     res.cell("cli-sidecar-recursive")
                 else:
-                    body = trees.comment_block(stl, pre + (["", "SPDX-License-Identifier: MIT"] if with_licence else [])) + "\n\n" + body
+                    blk = trees.comment_block(stl, pre + (["", "SPDX-License-Identifier: MIT"] if with_licence else []))
+                    mk = stl["single"]
+                    if mk and not mk[-1].isalnum() and all(ln.startswith(mk) for ln in blk.split("\n")) and rng.random() < 0.35:
+                        # typed without a blank behind the comment marker (#SPDX-...): a header like any other
+                        blk = "\n".join(mk + ln[len(mk):].lstrip(" ") for ln in blk.split("\n"))
+                        res.cell("cli-handwritten-start:no-blank-after-marker")
+                    body = blk + "\n\n" + body
                 res.cell("cli-handwritten-start")
             f.write_text(body)
             template = rng.choice(["custom", "nocontrib"] + (["commented"] if short == "python" else [])) if rng.random() < 0.3 else None
